@@ -855,7 +855,12 @@ func (s *sut) vprProblems(o *observation) []problem {
 		ps = append(ps, problem{"total-sum", fmt.Sprintf("total voting power %s, sum of the voters' powers %s", m.Total, sum)})
 	}
 	inB := map[string]string{}
-	for _, b := range m.Buckets {
+	for bi, b := range m.Buckets {
+		for _, vp := range b { // a voter lives in bucket (first byte of its account id) mod 71
+			if idb, err := hex.DecodeString(vp.ID); err != nil || len(idb) == 0 || strconv.Itoa(int(idb[0])%71) != bi {
+				ps = append(ps, problem{"bucket-index", fmt.Sprintf("voter with account id %s sits in voting power bucket %s", vp.ID, bi)})
+			}
+		}
 		// vprStore.update keeps every bucket ordered by descending account id; the reward lottery walks the
 		// buckets in this order, so it is part of what all nodes must agree on
 		for k := 0; k+1 < len(b); k++ {
@@ -1078,6 +1083,13 @@ func (w *world) selfConsistent(o *observation) (part, text string) {
 		if msg := w.rankSorted(i, st.Rank[i], st.Tally[i]); msg != "" {
 			return "rank", msg
 		}
+	}
+	n := int(st.Param["BPCOUNT"])
+	if n > len(st.Rank["BP"]) {
+		n = len(st.Rank["BP"])
+	}
+	if !reflect.DeepEqual(append([]string{}, o.Rankers...), append([]string{}, st.Rank["BP"][:n]...)) {
+		return "rankers", fmt.Sprintf("GetRankers %v, BPCOUNT=%d, ranking %v", o.Rankers, st.Param["BPCOUNT"], st.Rank["BP"])
 	}
 	var all int64
 	for _, a := range w.cfg.Accts {
